@@ -92,6 +92,43 @@ fn main() {
             }
             i += 1;
         }
+        // remove whole nodes (all links into them)
+        let mut x = 1;
+        while x < cur.len() {
+            let mut t = cur.clone();
+            for nd in t.iter_mut() {
+                nd.links.retain(|l| l.to != x);
+            }
+            let t = prune(&t);
+            if t.len() < cur.len() && outcome(&Spec::new(t.clone(), None)) == want {
+                cur = t;
+                changed = true;
+            } else {
+                x += 1;
+            }
+        }
+        // bypass a node: parents link to its children instead
+        let mut x = 1;
+        while x < cur.len() {
+            let kids: Vec<_> = cur[x].links.clone();
+            if kids.len() == 1 {
+                let mut t = cur.clone();
+                for nd in t.iter_mut() {
+                    for l in nd.links.iter_mut() {
+                        if l.to == x {
+                            l.to = kids[0].to;
+                        }
+                    }
+                }
+                let t = prune(&t);
+                if t.len() < cur.len() && outcome(&Spec::new(t.clone(), None)) == want {
+                    cur = t;
+                    changed = true;
+                    continue;
+                }
+            }
+            x += 1;
+        }
         // drop adjustments, put link fields first
         {
             let mut t = cur.clone();
